@@ -78,7 +78,7 @@ def iterator(
                 except Exception as exc:
                     cond_res = condition(exc, args, kwargs, key=_cache_key)
                     executing_time = time.monotonic() - start
-                    if _to_cache and cond_res and isinstance(cond_res, Exception) and _ttl > executing_time:
+                    if _to_cache and isinstance(cond_res, Exception) and _ttl > executing_time:
                         await backend.set(_cache_key + f":{chunk_number}", RaiseException(exc), expire=_ttl)
                         await backend.set(_cache_key, chunk_number + 1, expire=_ttl - executing_time)
                     raise exc
